@@ -451,7 +451,8 @@ def rw_records(prop, rng, thorough, only_classes=None):
 
 # ---------------------------------------------------------------- judgement (TLC)
 def judge(ctx, recs, invariants, label, workers=8):
-    """Evaluate the records in X64_Eval; returns [(record, clause, verdict record v)] for every violated invariant."""
+    """Evaluate the records in X64_Eval; returns [(record, clause, verdict record)] for every violated invariant
+    (the verdict record = X64_Explain's account of what disagrees)."""
     if not recs:
         return []
     drop = ("key", "key0", "text", "cls")
@@ -471,18 +472,33 @@ def judge(ctx, recs, invariants, label, workers=8):
         if (idx, e.name) in seen:
             continue
         seen.add((idx, e.name))
-        out.append((recs[idx - 1], e.name, e.last.get("v", {})))
-    return out
+        out.append((idx, e.name))
+    if not out:
+        return []
+    bad = sorted({idx for idx, _ in out})
+    inp = ctx.trace_file([slim[idx - 1] for idx in bad], "explain.json")
+    outp = os.path.join(ctx.workdir, "x64explain_out.json")
+    ctx.tlc("X64_Explain", CFG, label=label + ": what disagrees in the rejected records", env={"TRACE_FILE": inp, "OUT_FILE": outp},
+            workers=1, coverage=False)
+    try:
+        with open(outp) as f:
+            expl = json.load(f)
+    except Exception as e:
+        raise tlcmod.MachineryError("X64_Explain wrote no table: %s" % e)
+    os.unlink(inp)
+    os.unlink(outp)
+    if len(expl) != len(bad):
+        raise tlcmod.MachineryError("X64_Explain: %d verdicts for %d records" % (len(expl), len(bad)))
+    why = dict(zip(bad, expl))
+    return [(recs[idx - 1], name, why[idx]) for idx, name in out]
 
 
 REG64 = ["rax", "rcx", "rdx", "rbx", "rsp", "rbp", "rsi", "rdi", "r8", "r9", "r10", "r11", "r12", "r13", "r14", "r15"]
 
 
 def fam_names(v):
-    """A set of register families from a TLC state -> 'rax+rdx' (for keys / messages only)."""
-    if isinstance(v, tuple) and v and v[0] == "set":
-        v = v[1]
-    return "+".join(REG64[n] if n < 16 else "xmm%d" % (n - 16) for n in sorted(v))
+    """Membership vector of register families (X64_Explain) -> 'rax+rdx' (for keys / messages only)."""
+    return "+".join(REG64[n] if n < 16 else "xmm%d" % (n - 16) for n, m in enumerate(v) if m)
 
 
 # ---------------------------------------------------------------- spec validation against objdump / llvm-objdump
@@ -676,3 +692,136 @@ def _canon(t):
     t = re.sub(r"(byte|word|dword|qword|xmmword) ptr (0x[0-9a-f]+)", r"\1 ptr [\2]", t)
     t = re.sub(r",1$", "", t)
     return t
+
+
+# ---------------------------------------------------------------- the x86_64 parts of the engines C08 / C07
+def _mine(ctx, prop):
+    """None: a normal run; True: a replay of one of this part's cases; False: a replay of another part's case."""
+    if ctx.only is None:
+        return None
+    return str(ctx.only.get("key", "")).startswith(prop + ":x86_64:")
+
+
+def _rng(ctx, salt):
+    import random
+    return random.Random(ctx.seed * 1000003 + salt)  # own stream: the other parts' instances do not depend on this one
+
+
+def _restrict(ctx, recs):
+    if ctx.only is None:
+        return recs
+    want = {ctx.only.get("key"), ((ctx.only.get("case") or {}).get("record") or {}).get("key")}
+    sel = [r for r in recs if r["key"] in want]
+    if not sel:
+        ctx.note("replay: the case %s was not regenerated (different tier / seed / tree?)" % ctx.only.get("key"))
+    return sel
+
+
+def c08_part(ctx, thorough):
+    """C08 for ppci.arch.x86_64: X64.Decode(bytes ppci emitted) designates the operation and operands ppci prints.
+    Returns True when a replay was this part's."""
+    mine = _mine(ctx, "C08")
+    if mine is False:
+        return False
+    ctx.cov["rule_x86_64"] = (
+        "every concrete instruction class of get_arch('x86_64').isa (integer, sse1, sse2) x every addressing-mode constructor "
+        "of its r/m operand (RmMem, RmMemDisp, RmMemDisp2, RmReg*, RmXmmReg*, RmRip, RmAbs, RmAbsLabel) x {defaults; every "
+        "register of the operand's register class in the instruction's own slots, in the register r/m alternative and as base "
+        "of RmMem; boundary immediates of 8/16/32/64 bits}; for one class per encoding base class / operand width (all classes "
+        "in the thorough tier) also every register in every constructor slot, diagonals, base in {rax rsp rbp r12 r13} x "
+        "displacements {-129 -128 -127 -1 0 1 127 128 129, +-2^31 edges, 2^32-1}, label distances / addresses (the "
+        "instruction's own relocation applied); bytes = encode(); TLC: Agrees(X64.Decode(bytes), tokenised printed text); "
+        "distinct = distinct (class, mode, tag, printed text, symbol)")
+    ctx.assume("x86_64: lexical tokenisation of the printed text (harness/x64gen.py: tokenize); the operand width of a class "
+               "whose printed text shows no register (neg [rbx]) is the width of the register alternative of its r/m operand; "
+               "'jmpshort' is read as jmp with an 8-bit displacement, 'call *reg' as call reg")
+    if mine is None:
+        laws(ctx, ["fld", "tab", "enc", "adr", "kat"], thorough)
+    recs, skipped = enc_records("C08", _rng(ctx, 64), thorough)
+    agg = {}
+    for k, n in skipped.items():
+        kk = k.split(":")
+        agg[kk[0] + ":" + kk[-1]] = agg.get(kk[0] + ":" + kk[-1], 0) + n
+    ctx.note("x86_64: instances rejected by ppci (nothing emitted, not judged): " +
+             ", ".join("%d %s" % (n, k) for k, n in sorted(agg.items())))
+    recs = _restrict(ctx, recs)
+    for r in recs:
+        ctx.count(r["key"])
+    for r in recs[:: max(1, len(recs) // 3)][:3]:
+        ctx.sample({"key": r["key"], "bytes": r["out"]["bytes"]})
+    verdicts = judge(ctx, recs, ["SyntaxKnown", "Decodable", "EncodingAgrees", "OperandSizeAgrees"], "E: C08 records (x86_64)")
+    unknown = undec = 0
+    for rec, clause, v in verdicts:
+        if clause == "SyntaxKnown":
+            unknown += 1
+        elif clause == "Decodable":
+            undec += 1
+        else:
+            st = v.get("st")
+            got = {"ok": "decode to '%s ...'" % v.get("dmn"), "ud": "are an undefined opcode",
+                   "short": "are a truncated instruction"}.get(st, st)
+            ctx.violation(rec["key"], "bytes %s %s, not the printed '%s'%s [clause %s]" % (
+                bytes(rec["out"]["bytes"]).hex(), got, rec["text"],
+                " (operand width of the class: %d bits)" % rec["msz"] if clause == "OperandSizeAgrees" else "", clause),
+                {"record": rec, "clause": clause, "verdict": _plain(v)})
+    if unknown:
+        ctx.note("x86_64: %d instance(s) printed in a syntax outside the modelled assembly: no verdict" % unknown)
+    if undec:
+        ctx.note("x86_64: %d instance(s) whose bytes are outside the decoder's opcode subset: no verdict" % undec)
+    if thorough and mine is None:
+        objdump_crosscheck(ctx, [r["out"]["bytes"] for r in recs])
+    return mine is True
+
+
+CLAUSES = {"OperandReadsDeclared": ("mr", "operand-read", "reads"), "ImplicitReadsDeclared": ("mri", "implicit-read", "reads"),
+           "OperandWritesDeclared": ("mw", "operand-write", "writes"), "ImplicitWritesDeclared": ("mwi", "implicit-write", "writes")}
+
+
+def _plain(v):
+    return {k: (fam_names(x) if isinstance(x, list) else x) for k, x in (v or {}).items()}
+
+
+def c07_part(ctx, thorough):
+    """C07 for ppci.arch.x86_64: the architectural register sets of the emitted bytes (X64.ExplReads / ImplReads /
+    ExplWrites / ImplWrites) are declared.  Returns True when a replay was this part's."""
+    mine = _mine(ctx, "C07")
+    if mine is False:
+        return False
+    ctx.cov["rule_x86_64"] = (
+        "the instances of C08's x86_64 part (every class x addressing mode x register sweeps; one in-range value per integer "
+        "operand); ppci supplies the bytes and the names of used_registers / defined_registers / clobbers; TLC: ExplReads / "
+        "ImplReads of X64.Decode(bytes) within the families of the declared reads, ExplWrites / ImplWrites within the declared "
+        "writes + clobbers (al/ah/ax/eax/rax one family, xmm n single/double one family); distinct = distinct (class, mode, "
+        "tag, printed text)")
+    ctx.assume("x86_64: declared registers are read by their printed name; rsp as used by push / pop / call / ret, rip and the "
+               "flags are fixed implicit state; a partial write (al, ax, movss xmm, xmm) is not a read of the full register")
+    if mine is None:
+        laws(ctx, ["tab", "enc", "kat"], thorough)
+    recs, skipped = rw_records("C07", _rng(ctx, 64), thorough)
+    n = sum(skipped.values())
+    if n:
+        ctx.note("x86_64: %d instance(s) rejected by the constructor / encode(): nothing emitted, not judged" % n)
+    for r in recs:
+        r["key"] = "C07:x86_64:%s:%s:%s:%s" % r["key0"]
+    recs = _restrict(ctx, recs)
+    for r in recs:
+        ctx.count(r["key"])
+    for r in recs[:: max(1, len(recs) // 3)][:3]:
+        ctx.sample({k: r[k] for k in ("key", "bytes", "uses", "defs", "clob")})
+    verdicts = judge(ctx, recs, ["Decodable"] + list(CLAUSES), "E: C07 records (x86_64)")
+    undec = 0
+    for rec, clause, v in verdicts:
+        if clause == "Decodable":
+            undec += 1
+            continue
+        field, kind, verb = CLAUSES[clause]
+        regs = fam_names(v.get(field, ()))
+        cname, mode, tag, text = rec["key0"]
+        ctx.violation("C07:x86_64:%s:%s:%s:%s:%s:%s" % (cname, mode, kind, regs, tag, text),
+                      "'%s' (%s) %s %s without declaring it; declared reads %s writes %s clobbers %s [clause %s]" % (
+                          text, bytes(rec["bytes"]).hex(), verb, regs.replace("+", ", "), rec["uses"], rec["defs"], rec["clob"],
+                          clause),
+                      {"record": {k: x for k, x in rec.items() if k != "key0"}, "clause": clause, "verdict": _plain(v)})
+    if undec:
+        ctx.note("x86_64: %d instance(s) whose bytes are outside the decoder's subset / the register-set model: no verdict" % undec)
+    return mine is True
